@@ -175,6 +175,13 @@ def m3(ctx):
                 kw = {k.arg: k.value for k in n.keywords}
                 last = (dotted(n.func) or "").split(".")[-1]
                 ok = last == "RawConfigParser" or ("interpolation" in kw and isinstance(kw["interpolation"], ast.Constant) and kw["interpolation"].value is None)
+                # options that change how a stored value is read back (the writer, ConfigParser.write, knows none of them)
+                lossy = sorted(k for k in kw if k in ("inline_comment_prefixes", "comment_prefixes", "delimiters", "empty_lines_in_values", "converters", "allow_no_value")
+                               and not (isinstance(kw[k], ast.Constant) and kw[k].value in (None, False)))
+                obs.append(ctx.ob(not lossy, fi.qualname, "%s:%d" % (fi.module.rel, n.lineno), "ConfigParser reads values as written",
+                                  "no reader-side option that the writer does not mirror",
+                                  "`%s` sets %s: the parser strips or splits parts of a value that ConfigParser.write() stored verbatim, so a value containing "
+                                  "such characters reads back truncated" % (src(n)[:80], ", ".join(lossy))))
                 obs.append(ctx.ob(ok, fi.qualname, "%s:%d" % (fi.module.rel, n.lineno), "ConfigParser without interpolation",
                                   "interpolation=None", "`%s` uses BasicInterpolation: a stored '%%%%' reads back as '%%' and a lone '%%' is refused"
                                   % src(n)))
@@ -342,4 +349,51 @@ def m7(ctx):
                     ok = isinstance(a, ast.Name) and a.id == f.params[1] and all(d.kind == "param" for d in du.reaching(n, a.id))
                     obs.append(ctx.ob(ok, f.qualname, where(f, n), "%s passes its value on unchanged" % nm, "argument is the parameter `%s`" % f.params[1],
                                       "%s hands `%s` to %s, not the value it was given: what PROPFIND returns afterwards is not what was set" % (f.short, src(a) if a is not None else "?", c.func.attr)))
+    return obs
+
+
+@rule("C15", "M8", floor=3, kind="S",
+      desc="read back as written (reader side): a web-layer getter reports a stored value as 'not set' (KeyError) only "
+           "when it is absent/empty - never because of a predicate on its content")
+def m8(ctx):
+    obs = []
+    sbc = ctx.P.cls("xandikos.web.StoreBasedCollection")
+    n_getters = 0
+    for ci in [sbc] + sbc.all_subclasses():
+        for nm, fi in ci.methods.items():
+            if not nm.startswith("get_") or ctx.absorbed(fi):
+                continue
+            cfg = ctx.cfg(fi)
+            du = DefUse(cfg)
+            # values fetched from the store's metadata
+            fetched = set()
+            for n in cfg.stmt_nodes():
+                a = n.ast
+                if n.kind == "stmt" and isinstance(a, ast.Assign) and len(a.targets) == 1 and isinstance(a.targets[0], ast.Name) and isinstance(a.value, ast.Call) \
+                        and (dotted(a.value.func) or "").startswith("self.store.") and (dotted(a.value.func) or "").split(".")[-1].startswith("get_"):
+                    fetched.add(a.targets[0].id)
+            raises = [n for n in cfg.nodes if n.kind == "raise" and n.extra.get("exc") == "KeyError"]
+            if not fetched or not raises:
+                continue
+            n_getters += 1
+            bad = []
+            for t in [x for x in cfg.nodes if x.kind == "test"]:
+                names = {x.id for x in ast.walk(t.ast) if isinstance(x, ast.Name)}
+                if not (names & fetched):
+                    continue
+                e = t.ast
+                presence = isinstance(e, ast.Name) or (isinstance(e, ast.Compare) and len(e.ops) == 1 and isinstance(e.left, ast.Name)
+                                                        and isinstance(e.comparators[0], ast.Constant) and e.comparators[0].value in (None, "", b""))
+                if presence:
+                    continue
+                reach = {l: cfg.reachable([m for m, l2 in t.succ if l2 == l]) for l in ("t", "f")}
+                for r in raises:
+                    if (r.id in reach["t"]) != (r.id in reach["f"]):
+                        bad.append(t)
+            obs.append(ctx.ob(not bad, fi.qualname, fi.where, "%s: 'not set' only when absent" % nm,
+                              "KeyError is conditioned on presence tests only",
+                              "%s raises KeyError depending on `%s`, a predicate on the content of the stored value: a value that was accepted and stored "
+                              "(PROPPATCH answered 200) is reported as not set" % (fi.short, src(bad[0].ast) if bad else "")))
+    if n_getters < 3:
+        raise AnalysisError("only %d store-backed getters that can raise KeyError found" % n_getters)
     return obs
